@@ -162,7 +162,8 @@ func (h *histState) oraclePhase() {
 			if spec == nil {
 				continue
 			}
-			if spec.Ill == n {
+			if spec.Ill == n || (spec.IllShape == "global_not_table" && isProbeName(n) && h.meta.ByName[n] != nil && h.meta.ByName[n].Configurable) {
+				// (a global section that is not a table cannot be applied to any lint whose options refer to it)
 				h.ctr.inc("illtyped_target_linted/" + spec.IllShape + "/" + kindNames[kind])
 				naOK := R0 != nil && R0.Results[n].S == 1
 				hasMarker := strings.Contains(got.D, panicMarker)
